@@ -12,6 +12,9 @@ def run(c):
     A.obl_fixed_assembly(c, thorough=(c.tier == "thorough"), budget_s=1200)
     # the method object and its memo survive an option change (update_engine, same layout): the switches are read when a word is shown
     A.obl_reconfig(c, ct, thorough=(c.tier == "thorough"), budget_s=900)
+    # the emoji tables live in `Data`, which a re-configuration never rebuilds: what Data::new loads must not depend on the options
+    import obl_context
+    obl_context.obl_data(c, budget_s=300)
     # the fixed assembly takes the raw keys as given: that they are the keys of the word in progress (empty when nothing is composed) is the
     # session invariant, preserved by every event
     if c.tier == "quick":
